@@ -29,6 +29,16 @@ func (sh *shrinker) test() bool {
 		return false
 	}
 	sh.tests++
+	t0 := time.Now()
+	defer func() {
+		// candidates that take seconds each (runs into a step limit, huge states):
+		// stop minimising soon rather than blow the caller's time limit
+		if d := time.Since(t0); d > 3*time.Second {
+			if nd := time.Now().Add(3 * d); nd.Before(sh.deadline) {
+				sh.deadline = nd
+			}
+		}
+	}()
 	raw, err := json.Marshal(sh.root)
 	if err != nil {
 		return false
